@@ -88,6 +88,15 @@ type c18Component struct {
 
 type c18Facts struct {
 	Components []c18Component `json:"components"`
+	Validators *c18Component  `json:"validators"`
+}
+
+// the validators of the specification package that the harness can call by name
+var c18ValidatorFuncs = map[string]specification.SpecValidator{
+	"IsDecimal": specification.IsDecimal, "IsDecimalBetweenZeroAndOne": specification.IsDecimalBetweenZeroAndOne,
+	"IsNonNegativeDecimal": specification.IsNonNegativeDecimal, "IsInteger": specification.IsInteger,
+	"IsNonNegativeInteger": specification.IsNonNegativeInteger, "IsString": specification.IsString,
+	"IsBoolean": specification.IsBoolean, "IsReadableFile": specification.IsReadableFile,
 }
 
 func (c *c18Component) spec(key string) *c18Spec {
@@ -302,7 +311,7 @@ func c18CommonPalette() []interface{} {
 	negZero := math.Copysign(0, -1)
 	return []interface{}{
 		int64(0), int64(1), int64(-1), int64(2), int64(100), int64(20000), int64(math.MaxInt64), int64(math.MaxInt64 - 1), int64(math.MinInt64),
-		float64(0), negZero, float64(1), 0.5, -0.5, 0.95, 1e-5, 1.5e-4, 2.0, 100.0, 1e308, math.MaxFloat64, -math.MaxFloat64,
+		float64(0), negZero, float64(1), 0.5, -0.5, 0.95, 1e-5, 1.5e-4, 2.0, 100.0, 1e154, 1e300, -1e300, 1e308, math.MaxFloat64, -math.MaxFloat64,
 		math.SmallestNonzeroFloat64, -math.SmallestNonzeroFloat64, math.Nextafter(1, 2), math.Nextafter(1, 0),
 		math.NaN(), math.Inf(1), math.Inf(-1),
 		"", "x", "Minimising", "Maximising", "minimising", "Invalid", "ObjectiveValue", "go.mod", c18csv, "/nonexistent/verif-c18", ".",
@@ -741,7 +750,14 @@ func c18Emit(level string, comp *c18Component, variant string, user []c18KV, o *
 }
 
 func c18RunComponent(comp *c18Component, real *c18Real, user []c18KV, class string) {
-	set, params := real.fresh()
+	var set func(parameters.Map)
+	var params func() *parameters.Parameters
+	if p, what := protect(func() { set, params = real.fresh() }); p {
+		// the constructor itself reads its parameters through the typed getters (on the defaults)
+		c18stats["component_constructor_panics"]++
+		c18Oracle("constructing the component panicked before any user value was supplied", "component", comp, comp.Variant, nil, J{"panic": what})
+		return
+	}
 	um := c18ToMap(user)
 	panicked, what := protect(func() { set(um) })
 	focus := ""
@@ -766,24 +782,62 @@ func c18RunComponent(comp *c18Component, real *c18Real, user []c18KV, class stri
 	c18Emit("component", comp, comp.Variant, user, o, keys, class)
 }
 
+var c18LateSeen = map[string]bool{}
+
+// c18LateOnce runs the late-failure probe on one user map; returns the panic text ("" = fine).
+func c18LateOnce(real *c18Real, user []c18KV) string {
+	c18stats["late_probe_runs"]++
+	um := c18ToMap(user)
+	panicked, what := protect(func() { real.late(um) })
+	if !panicked {
+		return ""
+	}
+	if what == "" {
+		what = "(panic)"
+	}
+	if len(what) > 300 {
+		what = what[:300]
+	}
+	return what
+}
+
+// c18Late: use the component after it reported no parameter error.  A failing combination is shrunk to the single
+// entries that fail on their own (reported once each); only if none does is the combination itself reported.
 func c18Late(comp *c18Component, real *c18Real, user []c18KV) {
 	if real.late == nil {
 		return
 	}
-	c18stats["late_probe_runs"]++
-	um := c18ToMap(user)
-	panicked, what := protect(func() { real.late(um) })
-	if panicked {
-		c18stats["late_probe_panics"]++
-		key, val := "", J{}
-		if len(user) > 0 {
-			key, val = user[0].k, c18Enc(user[0].v)
+	what := c18LateOnce(real, user)
+	if what == "" {
+		return
+	}
+	c18stats["late_probe_panics"]++
+	report := func(u []c18KV, what string) {
+		key, val, text := "", J{}, ""
+		if len(u) == 1 {
+			key, val, text = u[0].k, c18Enc(u[0].v), fmt.Sprintf("%v", u[0].v)
 		}
-		if len(what) > 300 {
-			what = what[:300]
+		id := fmt.Sprint(comp.Name, c18EncUser(u))
+		if c18LateSeen[id] {
+			return
 		}
-		c18Oracle("component reported no parameter error but later fails on the parameter's value", "late", comp, comp.Variant, user,
-			J{"key": key, "value": val, "panic": what})
+		c18LateSeen[id] = true
+		c18Oracle("component reported no parameter error but later fails on the parameter's value", "late", comp, comp.Variant, u,
+			J{"key": key, "value": val, "value_text": text, "panic": what})
+	}
+	if len(user) <= 1 {
+		report(user, what)
+		return
+	}
+	shrunk := false
+	for _, kv := range user {
+		if w := c18LateOnce(real, []c18KV{kv}); w != "" {
+			shrunk = true
+			report([]c18KV{kv}, w)
+		}
+	}
+	if !shrunk {
+		report(user, what)
 	}
 }
 
@@ -817,7 +871,7 @@ func runC18(args []string) {
 	rng := newPrng(18)
 	combos := 40
 	if tier == "thorough" {
-		combos = 600
+		combos = 1500
 	}
 	covered := []string{}
 	for ci := range facts.Components {
@@ -910,7 +964,65 @@ func runC18(args []string) {
 			c18RunGeneric(comp, real, "all", user, true, "combo")
 			c18RunGeneric(comp, real, "enforced", user, true, "combo")
 			c18RunComponent(comp, real, user, "combo")
+			if tier == "thorough" {
+				c18Late(comp, real, user) // late() itself returns quietly when SetParameters reports an error
+			}
 		}
+		// 3b. (thorough) every pair of keys x a reduced palette: the type-correct boundary values and one value of
+		//     every other type
+		if tier == "thorough" {
+			reduced := func(sp *c18Spec) []interface{} {
+				res := []interface{}{}
+				for _, v := range c18KeyPalette(sp)[len(c18CommonPalette()):] {
+					res = append(res, v)
+				}
+				res = append(res, int64(1), 0.5, "x", true, nil, []interface{}{})
+				return res
+			}
+			for i := 0; i < len(keys); i++ {
+				for j := i + 1; j < len(keys); j++ {
+					for _, vi := range reduced(comp.spec(keys[i])) {
+						for _, vj := range reduced(comp.spec(keys[j])) {
+							user := []c18KV{{keys[i], vi}, {keys[j], vj}}
+							c18RunGeneric(comp, real, comp.Variant, user, false, "pair")
+							if rng.chance(0.25) {
+								c18RunComponent(comp, real, user, "pair")
+							}
+						}
+					}
+				}
+			}
+		}
+	}
+	// 4. every validator of the specification package directly (whether or not a component uses it):
+	//    a synthetic table with one optional key per validator, named after the validator
+	if vc := facts.Validators; vc != nil {
+		direct := []string{}
+		specs := specification.NewSpecifications()
+		for _, sp := range vc.Specs {
+			if f, ok := c18ValidatorFuncs[sp.Key]; ok {
+				specs.Add(specification.Specification{Key: sp.Key, Validator: f, IsOptional: true})
+				direct = append(direct, sp.Key)
+			} else {
+				c18stats["validator_not_callable_by_name_"+sp.Key]++
+			}
+		}
+		real := &c18Real{name: vc.Name, table: func() *specification.Specifications { return specs }}
+		sub := *vc
+		sub.Specs = nil
+		for _, sp := range vc.Specs {
+			if _, ok := c18ValidatorFuncs[sp.Key]; ok {
+				sub.Specs = append(sub.Specs, sp)
+			}
+		}
+		for _, k := range direct {
+			for _, v := range c18KeyPalette(sub.spec(k)) {
+				user := []c18KV{{k, v}}
+				c18RunGeneric(&sub, real, "all", user, false, "validator")
+				c18RunGeneric(&sub, real, "enforced", user, false, "validator")
+			}
+		}
+		emit(J{"kind": "validators", "direct": direct})
 	}
 	sort.Strings(covered)
 	emit(J{"kind": "covered", "components": covered})
